@@ -64,6 +64,8 @@ def _copy_val(v, memo):
         return memo[id(v)]
     if isinstance(v, tuple):
         return tuple(_copy_val(x, memo) for x in v)
+    if isinstance(v, set):
+        return set(v)
     return v
 
 
